@@ -60,6 +60,10 @@ type in15 struct {
 	OpID    string
 	Msg     storage.Message
 	Variant string
+	// FailSendCall > 0: the board refuses the node's FailSendCall-th Send call of this input
+	FailSendCall int
+	// Leaf: judged, but not continued from (results that carry about a megabyte)
+	Leaf bool
 }
 
 func c15(tier string, args []string) int {
@@ -194,9 +198,11 @@ func c15(tier string, args []string) int {
 					return map[string]interface{}{"base_offset": baseK, "history": append(s.Trace(), in.Label)}
 				}
 				var err error
+				lab.Node.Handle.ArmSendFailure(in.FailSendCall)
 				switch in.Kind {
 				case "submit":
 					err = lab.Node.SubmitResult(cloneOp15(in.Res))
+					lab.Node.Handle.ArmSendFailure(0)
 				case "approve":
 					err = lab.Node.Svc.ApproveParticipation(&dto.OperationIdDTO{OperationID: in.OpID})
 				case "deliver":
@@ -229,6 +235,10 @@ func c15(tier string, args []string) int {
 						} else if err == nil {
 							r.Violation("C15/unacceptable-submission-accepted/"+in.Variant, fmt.Sprintf("%s was accepted without an error", in.Label), trace())
 						}
+						continue
+					}
+					if err == nil && in.FailSendCall == 1 {
+						r.Violation("C15/accepted-although-the-board-refused/"+in.Variant, fmt.Sprintf("%s: the board refused the node's first request, the submission was accepted all the same", in.Label), trace())
 						continue
 					}
 					if err != nil {
@@ -276,6 +286,9 @@ func c15(tier string, args []string) int {
 							r.Violation("C15/pending-operation-lost-by-delivery", fmt.Sprintf("after %s the pending operation %s is gone", in.Label, id[:8]), trace())
 						}
 					}
+				}
+				if in.Leaf {
+					continue
 				}
 				c := &st15{Snap: store.put(after), Ref: ref}
 				key := c.Snap + "|" + ref.key()
@@ -411,6 +424,30 @@ func submissionVariants(res *types.Operation) []in15 {
 		add("result-signature-set", func(o *types.Operation) { o.ResultMsgs[0].Signature = []byte("forged") })
 		add("result-recipient-changed", func(o *types.Operation) { o.ResultMsgs[0].RecipientAddr = "mallory" })
 		add("result-dropped", func(o *types.Operation) { o.ResultMsgs = o.ResultMsgs[1:] })
+		// results that carry about a megabyte (the deals of a large ceremony do): all of it is
+		// posted, or - when the board takes none of it: one message over the board's line limit,
+		// or a request the board refuses - nothing is and the operation stays pending
+		big := func(o *types.Operation, sizes ...int) {
+			for _, n := range sizes {
+				m := o.ResultMsgs[0]
+				m.Data = bytes.Repeat([]byte{'x'}, n)
+				o.ResultMsgs = append(o.ResultMsgs, m)
+			}
+		}
+		leaf := func(fail int) {
+			out[len(out)-1].Leaf = true
+			out[len(out)-1].FailSendCall = fail
+		}
+		add("large-result", func(o *types.Operation) { big(o, 300<<10, 300<<10, 300<<10) })
+		leaf(0)
+		add("large-result-with-a-message-over-the-line-limit", func(o *types.Operation) { big(o, 300<<10, 300<<10, 300<<10, 1100<<10) })
+		leaf(0)
+		add("large-result-board-refuses-first-request", func(o *types.Operation) { big(o, 300<<10, 300<<10, 300<<10) })
+		leaf(1)
+		add("large-result-board-refuses-second-request", func(o *types.Operation) { big(o, 300<<10, 300<<10, 300<<10) })
+		leaf(2)
+		add("large-result-board-refuses-third-request", func(o *types.Operation) { big(o, 300<<10, 300<<10, 300<<10) })
+		leaf(3)
 	}
 	return out
 }
